@@ -298,7 +298,7 @@ SetupDone(k) ==
   /\ gen' = [gen EXCEPT ![k] = @ + 1] /\ status' = [status EXCEPT ![k] = "Connected"]
   /\ dial' = [dial EXCEPT ![k] = <<"none">>]
   /\ link' = [link EXCEPT ![k] = [h \in Gens(k) |->
-                IF h = gen[k] + 1 THEN [link[k][h] EXCEPT !.p = "run", !.r = "run"]
+                IF h = gen[k] + 1 THEN [link[k][h] EXCEPT !.p = IF @ = "new" THEN "run" ELSE @, !.r = IF @ = "new" THEN "run" ELSE @]
                 ELSE IF dial[k] = <<"r", h>> THEN [link[k][h] EXCEPT !.r = "dead"] ELSE link[k][h]]]
   /\ UNCHANGED <<callVars, clr, rcq, produced, drops, noise, sil>>
 
